@@ -117,7 +117,6 @@ static int run_case(int fsmode, int argc, char **argv, int timeout_ms, long rss_
       int n = open("/dev/null", O_RDWR); dup2(n, 0); dup2(n, 1);
       int e = open(errpath, O_WRONLY | O_CREAT | O_TRUNC, 0644); if (e < 0) _exit(93); dup2(e, 2);
       struct rlimit rl = { 256u << 20, 256u << 20 }; setrlimit(RLIMIT_FSIZE, &rl);
-      struct rlimit nf = { 65536, 65536 }; setrlimit(RLIMIT_NOFILE, &nf);   /* a fixed, generous descriptor limit */
       execv(exe, argv); _exit(92);
     }
     for (;;) {
@@ -140,6 +139,9 @@ int main(int argc, char **argv) {
   workdir = argv[2]; exe = argv[7];
   int timeout_ms = atoi(argv[5]); long rss_limit = atol(argv[6]);
   signal(SIGPIPE, SIG_IGN);
+  /* a fixed descriptor limit for every tool process (inherited): what a file that includes itself
+     runs into must not depend on the limit the explorer happened to be started with */
+  { struct rlimit nf = { 4096, 4096 }; if (setrlimit(RLIMIT_NOFILE, &nf)) die("setrlimit(RLIMIT_NOFILE, 4096)"); }
   int fd = open(argv[3], O_RDONLY); if (fd < 0) die("open case file");
   struct stat st; fstat(fd, &st); dlen = (size_t)st.st_size; data = malloc(dlen + 1);
   { size_t g = 0; while (g < dlen) { ssize_t r = read(fd, data + g, dlen - g); if (r <= 0) die("read case file"); g += (size_t)r; } }
